@@ -5,6 +5,7 @@
 -/
 import Driver.Proto
 import Lace.Model.Cmd.Reader
+import Lace.Spec.CmdGrammar
 namespace Lace.Driver
 open Lace.Cmd
 
@@ -57,5 +58,17 @@ partial def runSession (r : Reader) (events : Array String) : String :=
   | .eof n _ => renderSession "eof" (errs n)
   | .exit code n => renderSession ("exit " ++ toString code) (errs n)
   | .panic _ n => renderSession "panic" (errs n)
+
+/-- The domain of `Command::try_from`: a non-empty trimmed line without separators. -/
+def validLine (line : List Char) : Bool :=
+  line != [] && trim line == line && line.all (fun c => !CmdGrammar.isSeparator c)
+
+/-- What the grammar says a whole session yields: every line is a command or a rejected line,
+and the session always runs to the end of the input. -/
+def specSession (a : Option (List Char)) (b : List Char) : String :=
+  let events := (CmdGrammar.script (CmdGrammar.combined a b)).map fun
+    | some c => renderCommand c
+    | none => "err"
+  renderSession "eof" events.toArray
 
 end Lace.Driver
